@@ -10,7 +10,7 @@ if ! git -C /repo diff --quiet; then echo "/repo dirty; refusing" >&2; exit 2; f
 git -C /repo apply "$P" || { echo "patch does not apply"; exit 2; }
 for C in $CHECKS; do
   timeout 3000 ./check "$C" quick > /tmp/seed-$lc-$C.out 2>&1; RC=$?
-  echo "$lc vs $C: exit=$RC $(grep -E 'violations by kind|machinery error' /tmp/seed-$lc-$C.out | head -2 | tr '\n' ' ')"
+  echo "$lc vs $C: exit=$RC $(grep -E 'violations by kind|machinery error|rejected at compile time|^  (hang|process abort)' /tmp/seed-$lc-$C.out | sort -u | head -3 | tr '\n' ' ')"
 done
 git -C /repo checkout -- .
 git -C /repo clean -fdq -- src macros examples 2>/dev/null
